@@ -44,6 +44,17 @@ def gen_cases(rng, tier: str) -> list[dict]:
             # both symbolic routes for the directed patterns, in a variable that occurs
             other = dict(c, x=c["x"] if c["x"] in vs else vs[0], route="FE" if c["route"] != "FE" else "P")
             cases.append(other)
+        if vs and rng.random() < 0.2 and wire.size(e2) <= 25:
+            # higher orders: the simplified first (and second) derivative is itself an input
+            d = e2
+            for order in (2, 3):
+                r = call(lambda: sm.Partial(d, rng.choice(vs)).as_expression(), timeout=20)
+                if r[0] != "ok" or wire.size(r[1]) > 120 or not r[1]._variable_names:
+                    break
+                d = r[1]
+                dv = common.names_of(d)
+                cases.append({"origin": f"order-{order}", "e": wire.expr(d, ids={}), "x": rng.choice(dv),
+                              "route": rng.choice(["P", "FE"]), "points": c["points"]})
     return cases
 
 
